@@ -1846,6 +1846,31 @@ mod srvlevel {
                 _ => return (line.to_string(), "bad-op".into(), vec![]),
             },
         };
+        // `faults=2`: a second fault after the first replacement has rejoined; `limit=L`: max_concurrent_connections(L)
+        // (a worker that dies while saturated); `workers=1`: nobody else to serve while the replacement comes up
+        let faults = match kv(&ws, "faults") {
+            None => 1usize,
+            Some("1") => 1,
+            Some("2") => 2,
+            _ => return (line.to_string(), "bad-op".into(), vec![]),
+        };
+        let limit = match kv(&ws, "limit") {
+            None => None,
+            Some(l) => match super::num(l) {
+                Some(l) if (1..=4).contains(&l) => Some(l),
+                _ => return (line.to_string(), "bad-op".into(), vec![]),
+            },
+        };
+        let workers = match kv(&ws, "workers") {
+            None => 2usize,
+            Some("1") => 1,
+            Some("2") => 2,
+            _ => return (line.to_string(), "bad-op".into(), vec![]),
+        };
+        let exact = limit.is_none() && workers == 2; // answers are deterministic only in the plain two-worker scenario
+        if with_stop && !exact {
+            return (line.to_string(), "bad-op".into(), vec![]);
+        }
         let rt = tokio::runtime::Builder::new_current_thread().enable_all().build().unwrap();
         let mut fails = vec![];
         let obs = rt.block_on(async {
@@ -1854,10 +1879,11 @@ mod srvlevel {
             let (handle, addr, mut srv_done) = match host_server(move || {
                 let lst = std::net::TcpListener::bind("127.0.0.1:0")?;
                 let addr = lst.local_addr()?;
-                let srv = actix_server::Server::build()
-                    .workers(2)
-                    .shutdown_timeout(STOP_T)
-                    .disable_signals()
+                let mut b = actix_server::Server::build().workers(workers).shutdown_timeout(STOP_T).disable_signals();
+                if let Some(l) = limit {
+                    b = b.max_concurrent_connections(l);
+                }
+                let srv = b
                     .listen("faulty", lst, move || {
                         let sh = sh.clone();
                         actix_service::fn_factory(move || {
@@ -1891,14 +1917,45 @@ mod srvlevel {
             let r2 = ask(addr, w).await;
             // the replacement comes up and rejoins the rotation
             let t = Instant::now();
-            while shared.instances.load(Ordering::SeqCst) < 3 && t.elapsed() < Duration::from_secs(12) {
+            while shared.instances.load(Ordering::SeqCst) < workers + 1 && t.elapsed() < Duration::from_secs(12) {
                 tokio::time::sleep(Duration::from_millis(25)).await;
+                if !exact {
+                    // nothing discovers a fault but a dispatch to the dead worker: keep some traffic going
+                    let _ = ask(addr, Duration::from_millis(300)).await;
+                }
             }
-            let replaced = shared.instances.load(Ordering::SeqCst) >= 3;
+            let replaced = shared.instances.load(Ordering::SeqCst) >= workers + 1;
             tokio::time::sleep(Duration::from_millis(300)).await;
             let mut later = vec![];
             for _ in 0..4 {
                 later.push(ask(addr, w).await);
+            }
+            // `faults=2`: the same again — a worker dies, is replaced, and connections are answered afterwards
+            let mut second_obs = String::new();
+            if faults == 2 {
+                shared.kill_next.store(true, Ordering::SeqCst);
+                let killed2 = ask(addr, Duration::from_millis(1500)).await;
+                tokio::time::sleep(Duration::from_millis(gap)).await;
+                let t = Instant::now();
+                while shared.instances.load(Ordering::SeqCst) < workers + 2 && t.elapsed() < Duration::from_secs(10) {
+                    let _ = ask(addr, Duration::from_millis(300)).await;
+                    tokio::time::sleep(Duration::from_millis(25)).await;
+                }
+                let replaced2 = shared.instances.load(Ordering::SeqCst) >= workers + 2;
+                tokio::time::sleep(Duration::from_millis(300)).await;
+                let mut later2 = vec![];
+                for _ in 0..4 {
+                    later2.push(ask(addr, w).await);
+                }
+                if !replaced2 {
+                    fails.push("[C08] after a second fault the faulted worker was not replaced by a worker with services within 10 s".into());
+                }
+                for (k, r) in later2.iter().enumerate() {
+                    if r.is_none() {
+                        fails.push(format!("[C08,C01] connection #{k} made after the second fault's replacement period was not served (a worker without services panics on every connection)"));
+                    }
+                }
+                second_obs = format!(" killed2={} replaced2={} later2-all-served={}", killed2.map_or('-', |b| b as char), replaced2 as u8, later2.iter().all(|x| x.is_some()) as u8);
             }
             // `stop=1`: a connection is held open on the REPLACEMENT worker, then a graceful stop: it has to wait for it
             let mut stop_obs = String::new();
@@ -1967,7 +2024,7 @@ mod srvlevel {
             fails.extend(stop_fails);
             // ---- C08 / C01: a connection accepted after the fault is served by a live worker
             for (k, r) in [r1, r2].iter().enumerate() {
-                if r.is_none() {
+                if r.is_none() && exact {
                     fails.push(format!(
                         "[C08,C01] connection #{k} made after worker 0 died (while its service was being torn down{}) was closed without an answer although worker 1 is alive: it was dispatched to the dead worker instead of being re-routed",
                         if in_window { "" } else { "; the machine was slow, the window had passed" }
@@ -1980,18 +2037,29 @@ mod srvlevel {
                 }
             }
             if !replaced {
-                fails.push("[C08] the faulted worker was not replaced within 12 s".into());
+                fails.push(format!("[C08{}] the faulted worker was not replaced within 12 s (its fault was never discovered: nothing is dispatched to it any more)", if limit.is_some() { ",C03" } else { "" }));
             }
-            format!(
-                "before={}{} killed={} window={}{} replaced={} later-all-served={}{stop_obs}",
-                show(answers[0]),
-                show(answers[1]),
-                show(killed),
-                show(r1),
-                show(r2),
-                replaced as u8,
-                later.iter().all(|x| x.is_some()) as u8
-            )
+            if exact {
+                format!(
+                    "before={}{} killed={} window={}{} replaced={} later-all-served={}{second_obs}{stop_obs}",
+                    show(answers[0]),
+                    show(answers[1]),
+                    show(killed),
+                    show(r1),
+                    show(r2),
+                    replaced as u8,
+                    later.iter().all(|x| x.is_some()) as u8
+                )
+            } else {
+                // which worker takes which connection depends on timing here: only what the property fixes is shown
+                format!(
+                    "before={}/2 killed={} replaced={} later-all-served={}{second_obs}",
+                    answers.iter().filter(|x| x.is_some()).count(),
+                    show(killed),
+                    replaced as u8,
+                    later.iter().all(|x| x.is_some()) as u8
+                )
+            }
         });
         rt.shutdown_timeout(Duration::from_millis(200));
         if obs == "skipped" {
@@ -2426,6 +2494,17 @@ mod gen {
             }
             // … and a graceful stop with a connection in progress on the replacement worker
             writeln!(w, "fault fs stop=1").unwrap();
+            // two faults in sequence, each replaced before the next; a worker that dies while saturated
+            // (max_concurrent_connections = what was in progress when its service panicked); a single worker
+            writeln!(w, "fault f2 faults=2").unwrap();
+            writeln!(w, "fault fl limit=1").unwrap();
+            writeln!(w, "fault f1 workers=1 limit=1").unwrap();
+            if thorough {
+                writeln!(w, "fault f3 workers=1 faults=2").unwrap();
+                writeln!(w, "fault f4 limit=2 faults=2").unwrap();
+                writeln!(w, "fault f5 workers=1").unwrap();
+            }
+            writeln!(w, "fault bad2 faults=3").unwrap();
             writeln!(w, "fault bad gap=x").unwrap();
             w.flush().unwrap();
             return;
@@ -2435,6 +2514,8 @@ mod gen {
             // released at shutdown / nothing leaked (worker level), and connections around a worker fault (server level)
             writeln!(w, "case srvlevel n=1 timeout=0").unwrap();
             writeln!(w, "fault f0").unwrap();
+            writeln!(w, "fault fs stop=1").unwrap();
+            writeln!(w, "fault f2 faults=2").unwrap();
             c07_exhaustive(&mut *w, &mut rng, 1, if thorough { 4 } else { 3 }, "x1_");
             c07_arrivals(&mut *w, &mut rng, 2, 1);
             if thorough {
@@ -2577,6 +2658,9 @@ mod gen {
                 writeln!(w, "srv bad1 workers=1 timeout=1 mode=x holds=-").unwrap();
                 writeln!(w, "sig bad2 sig=hup timeout=1 hold=n").unwrap();
             }
+            // real OS signals to a child process with a held connection (one-sided): SIGQUIT is forced, SIGTERM graceful
+            writeln!(w, "sig q0 sig=quit timeout=5 hold=n").unwrap();
+            writeln!(w, "sig t0 sig=term timeout=1 hold=n").unwrap();
             writeln!(w, "srv bad0 workers=0 timeout=1 mode=g holds=-").unwrap();
             c06_enumerate(&mut *w, thorough);
             let nr = if thorough { 20000 } else { 1500 };
